@@ -40,6 +40,22 @@ pub struct LSheet {
     /// positions stored WITHOUT a value (a styled blank cell: xls BLANK, xlsx `<c r= s=/>`, xlsb BrtCellBlank, ods an
     /// empty `table:table-cell`): present in the file, never a value, never part of the used range
     pub blanks: BTreeSet<(u32, u32)>,
+    /// xlsx only: tables declared on this sheet (a relationships part of the sheet + one table part each)
+    pub tables: Vec<LTable>,
+    /// xlsx only: `<mergeCell ref=…>` values, written as given — an entry that is no reference makes
+    /// `load_merged_regions()` fail
+    pub merges: Vec<String>,
+    /// xlsx only: a cell the reader rejects (`t="e"` with a text that is no error literal): every read of this sheet
+    /// fails
+    pub poison: Option<(u32, u32)>,
+}
+
+/// an xlsx table: display name, `ref` rectangle (header row included), column names
+#[derive(Clone, Debug, Default)]
+pub struct LTable {
+    pub name: String,
+    pub rect: ((u32, u32), (u32, u32)),
+    pub columns: Vec<String>,
 }
 
 /// One xlsx shared-formula group: the cells `members` (in document order) carry `<f t="shared" si=…>`; the one at
@@ -167,6 +183,39 @@ pub fn write(book: &LBook, fmt: Fmt, rng: &mut Rng) -> Vec<u8> {
                     if !s.cells.contains_key(&(*r, *c)) {
                         sh.set(*r, *c, xlsxw::XCell::new(xlsxw::XVal::Empty));
                     }
+                }
+                if let Some((r, c)) = s.poison {
+                    sh.set(r, c, xlsxw::XCell::new(xlsxw::XVal::Err("#SPILL!".into())));
+                }
+                if !s.merges.is_empty() {
+                    let mut x = format!("<mergeCells count=\"{}\">", s.merges.len());
+                    for m in &s.merges {
+                        x.push_str(&format!("<mergeCell ref=\"{}\"/>", m));
+                    }
+                    x.push_str("</mergeCells>");
+                    sh.extra_after_sheet_data.push_str(&x);
+                }
+                if !s.tables.is_empty() {
+                    let sheet_no = b.sheets.len() + 1;
+                    let mut rels = String::from("<?xml version=\"1.0\" encoding=\"UTF-8\" standalone=\"yes\"?>\n<Relationships xmlns=\"http://schemas.openxmlformats.org/package/2006/relationships\">");
+                    for (k, t) in s.tables.iter().enumerate() {
+                        let part = format!("xl/tables/table{}_{}.xml", sheet_no, k + 1);
+                        rels.push_str(&format!(
+                            "<Relationship Id=\"rId{}\" Type=\"http://schemas.openxmlformats.org/officeDocument/2006/relationships/table\" Target=\"../tables/table{}_{}.xml\"/>",
+                            k + 1, sheet_no, k + 1
+                        ));
+                        let mut x = format!(
+                            "<?xml version=\"1.0\" encoding=\"UTF-8\" standalone=\"yes\"?>\n<table xmlns=\"http://schemas.openxmlformats.org/spreadsheetml/2006/main\" id=\"{}\" name=\"{}\" displayName=\"{}\" ref=\"{}\" headerRowCount=\"1\"><tableColumns count=\"{}\">",
+                            k + 1, t.name, t.name, xlsxw::rect_ref(t.rect), t.columns.len()
+                        );
+                        for (j, c) in t.columns.iter().enumerate() {
+                            x.push_str(&format!("<tableColumn id=\"{}\" name=\"{}\"/>", j + 1, c));
+                        }
+                        x.push_str("</tableColumns></table>");
+                        b.extra_parts.push((part, x.into_bytes()));
+                    }
+                    rels.push_str("</Relationships>");
+                    b.extra_parts.push((format!("xl/{}/_rels/sheet{}.xml.rels", sh.folder, sheet_no), rels.into_bytes()));
                 }
                 for g in &s.shared {
                     let (r0, c0) = *g.members.iter().min().unwrap();
@@ -347,7 +396,7 @@ pub fn gen_sheet_at(rng: &mut Rng, name: &str, max_cells: u64, (r0, c0, h, w): (
 /// xlsx shared-formula groups (master first / last / absent, `si` reused across sheets), an xlsb sheet entry
 /// without relationship
 pub fn gen_book_rich(rng: &mut Rng, fmt: Fmt, max_sheets: u64, max_cells: u64) -> LBook {
-    let mut b = gen_book(rng, fmt, max_sheets, max_cells);
+    let mut b = gen_book_dup(rng, fmt, max_sheets, max_cells);
     let n = b.sheets.len();
     for (i, s) in b.sheets.iter_mut().enumerate() {
         if fmt != Fmt::Ods && n > 1 && rng.chance(1, 5) {
@@ -363,6 +412,30 @@ pub fn gen_book_rich(rng: &mut Rng, fmt: Fmt, max_sheets: u64, max_cells: u64) -
                     let f = if fmt == Fmt::Ods { format!("of:={}+1", rng.below(9)) } else { format!("{}+1", rng.below(9)) };
                     s.formulas.insert(k, f);
                 }
+            }
+        }
+        if fmt == Fmt::Xlsx && s.kind == 0 && !s.cells.is_empty() {
+            let (r0, c0) = (s.cells.keys().map(|k| k.0).min().unwrap(), s.cells.keys().map(|k| k.1).min().unwrap());
+            let (r1, c1) = (s.cells.keys().map(|k| k.0).max().unwrap(), s.cells.keys().map(|k| k.1).max().unwrap());
+            if rng.chance(1, 3) {
+                // a table over the used range (named T<sheet no>: the histories ask for T1)
+                let columns = (c0..=c1).map(|c| format!("c{c}")).collect();
+                s.tables.push(LTable { name: format!("T{}", i + 1), rect: ((r0, c0), (r1, c1)), columns });
+            }
+            if rng.chance(1, 3) {
+                s.merges.push(xlsxw::rect_ref(((r0, c0), (r0 + rng.below(2) as u32, c0 + 1 + rng.below(2) as u32))));
+                if rng.chance(1, 2) {
+                    s.merges.push(xlsxw::rect_ref(((r1 + 1, c0), (r1 + 2, c0))));
+                }
+                if rng.chance(1, 4) {
+                    // not a reference: load_merged_regions() fails on this workbook
+                    let at = rng.below(s.merges.len() as u64 + 1) as usize;
+                    s.merges.insert(at, (*rng.pick(&["ZZ", "", "A0:B2", "1:2"])).to_string());
+                }
+            }
+            // a sheet that cannot be read — more often when a table lives on it (a table lookup then fails half-way)
+            if rng.chance(1, if s.tables.is_empty() { 10 } else { 3 }) {
+                s.poison = Some((r1 + 1, c0));
             }
         }
         if fmt == Fmt::Xlsx && s.kind == 0 && rng.chance(1, 2) {
@@ -395,6 +468,17 @@ pub fn gen_book(rng: &mut Rng, fmt: Fmt, max_sheets: u64, max_cells: u64) -> LBo
     for i in 0..n {
         let name = format!("S{}{}", i, rng.pick(&["", "x", " y", "é"]));
         b.sheets.push(gen_sheet_at(rng, &name, max_cells, o));
+    }
+    b
+}
+
+/// `gen_book`, where one book in eight has two sheets carrying the SAME name (the readers accept that: a name then
+/// resolves to the first sheet that carries it)
+pub fn gen_book_dup(rng: &mut Rng, fmt: Fmt, max_sheets: u64, max_cells: u64) -> LBook {
+    let mut b = gen_book(rng, fmt, max_sheets, max_cells);
+    if b.sheets.len() >= 2 && rng.chance(1, 8) {
+        let k = 1 + rng.below(b.sheets.len() as u64 - 1) as usize;
+        b.sheets[k].name = b.sheets[0].name.clone();
     }
     b
 }
